@@ -422,6 +422,94 @@ func runC19Reconnect(c *Ctx) {
 		}
 	}
 	coord.ResetLog()
+	runC19LateResource(c, coord)
+}
+
+// a resource whose FIRST announcement did not get through (the coordinator could not be reached when the
+// application created it): it is a resource of this client all the same, announced on the next session, and
+// phase two for its branches reaches it
+func runC19LateResource(c *Ctx, coord *Coord) {
+	cid := "reconnect-late"
+	if !c.Want(cid) {
+		return
+	}
+	refuse := true
+	coord.Script = func(s *FakeSession, kind string, m message.RpcMessage) Action {
+		if b, ok := m.Body.(message.RegisterRMRequest); ok && strings.Contains(b.ResourceIds, "c19-late") && refuse {
+			refuse = false
+			return Action{TransportE: true}
+		}
+		return Action{}
+	}
+	late := &simpleAction{name: "c19-late"}
+	var proxy *tcc.TCCServiceProxy
+	var perr error
+	crash := safeCall(func() { proxy, perr = tcc.NewTCCServiceProxy(late) })
+	coord.Script = nil
+	// the connection is lost and comes back
+	for _, s := range coord.Sessions() {
+		if !s.IsClosed() {
+			s.CloseFromPeer()
+		}
+	}
+	coord.ResetLog()
+	ns := coord.OpenSession()
+	announced := coord.WaitFor(time.Second, func(l []LoggedReq) bool {
+		for _, e := range l {
+			if e.Session == ns.id && e.Kind == "RegisterRM" && strings.Contains(e.Xid, "c19-late") {
+				return true
+			}
+		}
+		return false
+	})
+	// a branch of the resource, and phase two for it
+	phase2 := "n/a"
+	if proxy != nil {
+		var xid string
+		var branchID int64
+		tm.WithGlobalTx(context.Background(), &tm.GtxConfig{Name: cid}, func(ctx context.Context) error {
+			xid = tm.GetXID(ctx)
+			_, e := proxy.Prepare(ctx, nil)
+			if bac := tm.GetBusinessActionContext(ctx); bac != nil {
+				branchID = bac.BranchId
+			}
+			return e
+		})
+		coord.SendBranchCommit(ns, 778001, xid, branchID, branch.BranchTypeTCC, late.name, []byte(`{"actionContext":{}}`))
+		coord.WaitFor(2*time.Second, func(l []LoggedReq) bool {
+			for _, e := range l {
+				if e.Kind == "BranchCommitResponse" && e.Msg.ID == 778001 {
+					return true
+				}
+			}
+			return false
+		})
+		late.mu.Lock()
+		if len(late.commits) > 0 {
+			phase2 = "ok"
+		} else {
+			phase2 = "failed"
+		}
+		late.mu.Unlock()
+	}
+	obs := fmt.Sprintf("created=%v err=%v announced=%v phase2=%s", proxy != nil, perr != nil, announced, phase2)
+	c.Out.Case(cid, "C19", "skip", "skip")
+	switch {
+	case crash != "":
+		c.Out.Oracle(cid, false, "crash", crash)
+	case proxy == nil:
+		// the application got no proxy: nothing it could have prepared a branch with
+		c.Out.Oracle(cid, true, "", obs)
+	case !announced:
+		c.Out.Oracle(cid, false, "rm_not_reannounced", "resource c19-late (first announcement lost) not announced on the new session | "+obs)
+	case phase2 != "ok":
+		c.Out.Oracle(cid, false, "reconnect_broken", obs)
+	default:
+		c.Out.Oracle(cid, true, "", obs)
+	}
+	c.Out.Tag(cid, "nontrivial=1")
+	c.Out.Count("reconnect.late-resource")
+	coord.ResetLog()
 }
 
 // ---- the XID policy through the real client: with sessions open to several coordinators, a request that
